@@ -53,6 +53,10 @@ func literals() []lit {
 			out = append(out, lit{new(big.Int).Set(v), dec})
 			if v.Sign() >= 0 {
 				out = append(out, lit{new(big.Int).Set(v), "0x" + v.Text(16)})
+				// the IDL has no octal: leading zeros and an explicit plus sign are decimal notation
+				out = append(out, lit{new(big.Int).Set(v), "0" + dec}, lit{new(big.Int).Set(v), "+" + dec}, lit{new(big.Int).Set(v), "000" + dec})
+			} else {
+				out = append(out, lit{new(big.Int).Set(v), "-0" + dec[1:]})
 			}
 		}
 	}
@@ -301,6 +305,15 @@ func programs() []program {
 	reject("const-cycle-via-list", "const list<i32> a = [b]\nconst i32 b = c\nconst i32 c = b", false)
 	reject("const-self-in-list", "const list<list<i32>> a = [a]", false)
 	reject("const-self-in-map", "const map<string, map<string,i32>> a = {\"k\": a}", false)
+	// a constant of a recursive struct type whose literal mentions the constant itself
+	node := "struct Node { 1: required i32 value; 2: optional Node tail; 3: optional list<Node> kids; 4: optional map<string, Node> named }\n"
+	reject("const-self-in-struct-field", node+"const Node LOOP = {\"value\": 1, \"tail\": LOOP}", false)
+	reject("const-self-in-struct-list-field", node+"const Node LOOP = {\"value\": 1, \"kids\": [LOOP]}", false)
+	reject("const-self-in-struct-map-field", node+"const Node LOOP = {\"value\": 1, \"named\": {\"k\": LOOP}}", false)
+	reject("const-self-in-nested-struct-literal", node+"const Node LOOP = {\"value\": 1, \"tail\": {\"value\": 2, \"tail\": LOOP}}", false)
+	reject("const-cycle-2-through-struct-literals", node+"const Node A = {\"value\": 1, \"tail\": B}\nconst Node B = {\"value\": 2, \"tail\": A}", false)
+	reject("const-cycle-2-struct-then-ref", node+"const Node A = {\"value\": 1, \"tail\": B}\nconst Node B = A", false)
+	reject("const-cycle-2-ref-then-struct", node+"const Node A = B\nconst Node B = {\"value\": 1, \"kids\": [A]}", false)
 	reject("service-extends-self", "service A extends A {}", false)
 	reject("service-cycle-2", "service A extends B {}\nservice B extends A {}", false)
 	reject("service-cycle-3", "service A extends B {}\nservice B extends C {}\nservice C extends A {}", false)
